@@ -173,6 +173,16 @@ class _NpProxy:
             return out
         return one(*args)
 
+    def divmod(self, a, b):
+        if self._has_sym(a) or self._has_sym(b):
+            aa, bb = np.broadcast_arrays(np.asarray(a, dtype=object), np.asarray(b, dtype=object))
+            q = np.empty(aa.shape, dtype=object)
+            r = np.empty(aa.shape, dtype=object)
+            for idx in np.ndindex(*aa.shape):
+                q[idx], r[idx] = divmod(aa[idx], bb[idx])
+            return q, r
+        return self._np.divmod(a, b)
+
     def cos(self, x):
         return self._elementwise("cos", x)
 
